@@ -431,30 +431,48 @@ def rule_start_child(ck, A):
     is_pub = lambda n: n.kind == "stmt" and isinstance(n.ast, ast.Assign) and g in q.assigned_paths(n.ast) and q.dotted(n.ast.value) == idp
     is_rec = lambda n: n.kind == "stmt" and isinstance(n.ast, ast.Assign) and (A.children_in_start + "[]") in q.assigned_paths(n.ast)
 
+    # a result variable (`result = None ... result = i ... return result`): what kind of value each plain local holds
+    def kind_of(e):
+        if e is None or q.is_const(e, None):
+            return "none"
+        if q.dotted(e) == idp:
+            return "id"
+        return "?"
+
     def tr(n, v):
-        pub, recd = v
+        pub, recd, loc = v
         if is_pub(n):
             pub = True
         if n.kind == "stmt" and isinstance(n.ast, ast.Assign) and g in q.assigned_paths(n.ast) and not is_pub(n):
             pub = False
         if is_rec(n):
             recd = True
-        return (pub, recd)
+        if n.kind == "stmt" and isinstance(n.ast, ast.Assign) and len(n.ast.targets) == 1 and isinstance(n.ast.targets[0], ast.Name) and n.ast.targets[0].id not in (g, pidn):
+            d_ = dict(loc)
+            d_[n.ast.targets[0].id] = kind_of(n.ast.value)
+            loc = tuple(sorted(d_.items()))
+        return (pub, recd, loc)
 
-    seen = explore(sc.cfg, (False, False), tr, lambda t: t == "%s == 0" % pidn, follow_exc=False)
+    def ret_kind(ret, loc):
+        v_ = ret.value
+        if isinstance(v_, ast.Name) and v_.id != idp and v_.id in dict(loc):
+            return dict(loc)[v_.id]
+        return kind_of(v_)
+
+    seen = explore(sc.cfg, (False, False, ()), tr, lambda t: t == "%s == 0" % pidn, follow_exc=False)
     cfg = sc.cfg
     nret = 0
     for n in cfg.stmt_nodes(lambda n: n.kind == "stmt" and isinstance(n.ast, ast.Return)):
-        for facts, (pub, recd) in sorted(seen.get(n.id, ()), key=repr):
+        for facts, (pub, recd, loc) in sorted(seen.get(n.id, ()), key=repr):
             nret += 1
             child = ("%s == 0" % pidn, True) in facts
             parent = ("%s == 0" % pidn, False) in facts
             if child:
                 ck.ob("C41.task-id", sc, n.ast, pub and not recd, "child branch: the module-global task id is set to the given id before returning, and the child does not touch the parent's table", construct="child-publishes " + q.unparse(n.ast))
-                ck.ob("C41.task-id", sc, n.ast, q.dotted(n.ast.value) == idp, "child branch returns its task id", construct="child-returns " + q.unparse(n.ast))
+                ck.ob("C41.task-id", sc, n.ast, ret_kind(n.ast, loc) == "id", "child branch returns its task id", construct="child-returns " + q.unparse(n.ast))
             elif parent:
                 ck.ob("C41.task-id", sc, n.ast, recd and not pub, "parent branch: records pid -> id before returning and does not claim a task id itself", construct="parent-records " + q.unparse(n.ast))
-                ck.ob("C41.task-id", sc, n.ast, n.ast.value is None or q.is_const(n.ast.value, None), "parent branch returns None", construct="parent-returns " + q.unparse(n.ast))
+                ck.ob("C41.task-id", sc, n.ast, ret_kind(n.ast, loc) == "none", "parent branch returns None", construct="parent-returns " + q.unparse(n.ast))
             else:
                 ck.ob("C41.task-id", sc, n.ast, False, "every return of start_child is on the child (pid == 0) or the parent branch", construct="unclassified-return " + q.unparse(n.ast))
     if cfg.pred[cfg.exit.id]:
@@ -463,7 +481,7 @@ def rule_start_child(ck, A):
         for p, kind in cfg.pred[cfg.exit.id]:
             pn = cfg.nodes[p]
             if not (pn.kind == "stmt" and isinstance(pn.ast, ast.Return)):
-                for facts, (pub, recd) in seen.get(pn.id, ()):
+                for facts, (pub, recd, _loc) in seen.get(pn.id, ()):
                     ok = ("%s == 0" % pidn, False) in facts and (recd or is_rec(pn))
                     ck.ob("C41.task-id", sc, pn.ast if isinstance(pn.ast, ast.AST) else sc.node, ok, "implicit `return None` only on the parent branch after recording the child", construct="fallthrough")
                     nret += 1
